@@ -160,6 +160,31 @@ pub fn run<A: Default + Send>(
     accs
 }
 
+/// Re-executes one case in a fresh worker. Used to confirm every outcome that would be reported
+/// as a violation: a death or timeout that does not repeat is an artefact of the sweep (machine
+/// load), never a verdict.
+pub fn run_single(cfg: &PoolCfg, payload: &[u8]) -> Outcome {
+    let mut w = spawn(cfg);
+    let (o, dead) = run_one(&mut w, cfg, payload);
+    if !dead {
+        drop(w.stdin);
+        let _ = w.child.wait();
+    }
+    o
+}
+
+/// `first` is believed only if a fresh worker repeats it (replies must be byte-identical;
+/// deaths must be deaths; timeouts must be timeouts).
+pub fn confirmed(cfg: &PoolCfg, payload: &[u8], first: &Outcome) -> bool {
+    let again = run_single(cfg, payload);
+    match (first, &again) {
+        (Outcome::Reply(a), Outcome::Reply(b)) => a == b,
+        (Outcome::Died { .. }, Outcome::Died { .. }) => true,
+        (Outcome::Timeout, Outcome::Timeout) => true,
+        _ => false,
+    }
+}
+
 /// Worker side: answers cases on stdin until EOF.
 pub fn serve(mut f: impl FnMut(&[u8]) -> Vec<u8>) -> ! {
     let stdin = std::io::stdin();
